@@ -94,6 +94,10 @@ class SpecFS:
         self.unknown = set()
         self.deleted = set()
 
+def f_known(sp, slot):
+    f = sp.open.get(slot)
+    return f is not None and f["path"] in sp.files
+
 def run_spec(tr, dev0, slot_of_vol, checks=("read", "state")):
     """replays the implementation's results against the byte-array model; returns (problems, spec)"""
     g = fatck.mount(dev0, slot_of_vol)
@@ -117,7 +121,7 @@ def run_spec(tr, dev0, slot_of_vol, checks=("read", "state")):
         elif kind == "openroot" and okk and bind:
             if vols.get(op[1]) == slot_of_vol:
                 sp.dslot[bind] = ""
-        elif kind == "opendir" and okk and bind and op[1] in sp.dslot:
+        elif kind in ("opendir", "chdir") and okk and bind and op[1] in sp.dslot:
             nm = unhexname(op[2]); base = sp.dslot[op[1]]
             if nm in (".", ""):
                 sp.dslot[bind] = base
@@ -127,7 +131,7 @@ def run_spec(tr, dev0, slot_of_vol, checks=("read", "state")):
                 s11 = sfn_parse(nm)
                 if s11:
                     sp.dslot[bind] = base + "/" + s11.decode("latin-1").rstrip()
-        elif kind == "closedir" and okk:
+        elif kind in ("closedir", "dropdir") and okk:
             sp.dslot.pop(op[1], None)
         elif kind == "remount":
             # files with modifications that were never flushed: what the medium holds is not determined by this
@@ -241,6 +245,20 @@ def run_spec(tr, dev0, slot_of_vol, checks=("read", "state")):
                 sp.flushed[f["path"]] = (bytes(sp.files[f["path"]]), k)
             if kind == "close" and (okk or tr.err(k) not in ("LockError",)):
                 del sp.open[op[1]]
+        elif kind == "dropfile" and op[1] in sp.open:
+            # impl Drop for File: close_file with the result discarded - without a device fault it is a successful close
+            f = sp.open[op[1]]
+            if not tr.faulted(k):
+                sp.flushed[f["path"]] = (bytes(sp.files[f["path"]]), k)
+            del sp.open[op[1]]
+        elif kind in ("wlen", "woff", "weof") and op[1] in sp.open and f_known(sp, op[1]):
+            # File::length / offset / is_eof on an open handle: the byte-array model's value, never a panic
+            f = sp.open[op[1]]; ln = len(sp.files[f["path"]])
+            want = {"wlen": ln, "woff": f["pos"], "weof": 1 if f["pos"] == ln else 0}[kind]
+            if r[0] == "panic":
+                problems.append("op %d: File::%s panicked on an open file" % (k, {"wlen": "length", "woff": "offset", "weof": "is_eof"}[kind]))
+            elif okk and int(r[2]) != want:
+                problems.append("op %d: File::%s returned %s, the byte-array model has %d" % (k, {"wlen": "length", "woff": "offset", "weof": "is_eof"}[kind], r[2], want))
         # reported length / offset / eof after every op
         if "state" in checks:
             for sl, f in sp.open.items():
